@@ -98,7 +98,7 @@ pub fn run(ctx: &mut Ctx) {
             case += 1;
             // the per-instruction digest must be shard independent: every shard runs every
             // instruction but only its own slice of the random cases; pairs are split too
-            if (k % ctx.nshards) != ctx.shard {
+            if if ctx.is_fuzz() { !ctx.mine(case) } else { (k % ctx.nshards) != ctx.shard } {
                 continue;
             }
             let mut r = Rng::derive(ctx.seed, &[4, ni as u64, k as u64]);
@@ -145,7 +145,9 @@ pub fn run(ctx: &mut Ctx) {
                 }
             }
         }
-        ctx.rec.note(&format!("dig|{}|{}/{}", name, ctx.shard, ctx.nshards), &format!("{:016x}", dig));
+        if !ctx.is_fuzz() {
+            ctx.rec.note(&format!("dig|{}|{}/{}", name, ctx.shard, ctx.nshards), &format!("{:016x}", dig));
+        }
         ctx.rec.set_add("instructions", name);
     }
     ctx.rec.checkpoint();
